@@ -70,6 +70,7 @@ def plan(tier, seed):
         if len(t) <= 2 and (tier == 'thorough' or len(json.dumps(t)) % 3 == 0):
             tree_cases.append({'tree': 'two', 'idx': t})
             tree_cases.append({'tree': 'stokes', 'idx': t})
+            tree_cases.append({'tree': 'dtypes', 'idx': t})
     pack = []
     for n in range(1, 5):
         for m in itertools.product([False, True], repeat=n):
@@ -229,7 +230,11 @@ def check_tree(case, violations, counters):
 
     f32 = jnp.float32
     idx_np = tuple(to_np(i) for i in case['idx'])
-    if case['tree'] == 'two':
+    dts = {'u': f32, 'v': f32, 'w': f32}
+    if case['tree'] == 'dtypes':   # one shape, three dtypes: a derived output structure must keep each leaf's dtype
+        shapes = {'u': (2, 3), 'v': (2, 3), 'w': (2, 3)}
+        dts = {'u': jnp.float16, 'v': f32, 'w': jnp.complex64}
+    elif case['tree'] == 'two':
         shapes = {'u': (2, 3), 'v': (2, 3, 2), 'w': (2, 3)}
     else:
         shapes = {'i': (2, 3), 'q': (2, 3), 'u': (2, 3)}
@@ -240,10 +245,10 @@ def check_tree(case, violations, counters):
         return False
     has_mask = any(i[0] == 'mask' for i in case['idx'])
     idx = to_jax(idx_np)
-    if case['tree'] == 'two':
-        in_s = {k: jax.ShapeDtypeStruct(s, f32) for k, s in shapes.items()}
-        out_s = {k: jax.ShapeDtypeStruct(r.shape, f32) for k, r in refs.items()}
-        x_in = {k: jnp.asarray(v) for k, v in xs.items()}
+    if case['tree'] in ('two', 'dtypes'):
+        in_s = {k: jax.ShapeDtypeStruct(s, dts[k]) for k, s in shapes.items()}
+        out_s = {k: jax.ShapeDtypeStruct(r.shape, dts[k]) for k, r in refs.items()}
+        x_in = {k: jnp.asarray(v, dts[k]) for k, v in xs.items()}
     else:
         in_s = StokesIQUPyTree(*[jax.ShapeDtypeStruct(s, f32) for s in shapes.values()])
         out_s = StokesIQUPyTree(*[jax.ShapeDtypeStruct(r.shape, f32) for r in refs.values()])
@@ -253,7 +258,7 @@ def check_tree(case, violations, counters):
         op = IndexOperator(idx, in_structure=in_s, out_structure=out_s)
         y = op.mv(x_in)
         got = jax.tree.leaves(y)
-        for g, (k, r) in zip(got, sorted(refs.items()) if case['tree'] == 'two' else refs.items()):
+        for g, (k, r) in zip(got, sorted(refs.items()) if case['tree'] in ('two', 'dtypes') else refs.items()):
             if np.asarray(g).shape != r.shape or not np.array_equal(np.asarray(g), r):
                 violations.append({'kind': 'wrong-selection', 'case': case, 'detail': f'leaf {k}: {np.asarray(g).ravel()[:6]} vs {r.ravel()[:6]}'})
                 return True
@@ -261,7 +266,7 @@ def check_tree(case, violations, counters):
             op2 = IndexOperator(idx, in_structure=in_s)
             if not P.same_struct(op2.out_structure(), out_s):
                 violations.append({'kind': 'derived-out-structure', 'case': case, 'detail': f'{op2.out_structure()}'})
-        if all(r.size for r in refs.values()):
+        if all(r.size for r in refs.values()) and case['tree'] != 'dtypes':
             M = P.probe(op, cache=False).M
             Mt = P.probe(op.T, cache=False).M
             if not np.array_equal(Mt, M.T):
